@@ -189,7 +189,30 @@ impl Ctx {
                     }
                 }
             }
-            OutMode::Direct => to_file(&self.arg1, true),
+            OutMode::Direct => {
+                // A direct write usually lands close to the previous mtime of the
+                // target: keep it within the same second where a previous file
+                // exists (old mtime + 1 us), else use the simulated clock.
+                let c = cstr(&self.arg1);
+                let mut st: libc::stat = unsafe { std::mem::zeroed() };
+                let had = unsafe { libc::lstat(c.as_ptr(), &mut st) } == 0;
+                to_file(&self.arg1, !had);
+                if had {
+                    let mut ns = st.st_mtime_nsec + 1_000;
+                    let mut sec = st.st_mtime;
+                    if ns >= 1_000_000_000 {
+                        ns -= 1_000_000_000;
+                        sec += 1;
+                    }
+                    let ts = [
+                        libc::timespec { tv_sec: sec, tv_nsec: ns },
+                        libc::timespec { tv_sec: sec, tv_nsec: ns },
+                    ];
+                    unsafe {
+                        libc::utimensat(libc::AT_FDCWD, c.as_ptr(), ts.as_ptr(), 0);
+                    }
+                }
+            }
             OutMode::Rm3 => {
                 to_file(&self.arg3, false);
                 let c = cstr(&self.arg3);
